@@ -21,8 +21,10 @@ import pilio
 LEVEL = "proof"
 LEVEL_NOTE = ("the end-to-end theorem (PepperProps/C06.lean: end_to_end, end_to_end_component, end_to_end_struct) composes C01/C02 compile, "
               "C04/C15 arrays, process_results / output (.mfe records) and finish on the saved tree into one Lean statement; the designer itself is "
-              "replaced by 'any assignment satisfying the arrays' (ArraysGood); hypothesis MfeNamesDistinct (F13); PARTIAL at the text level of the "
-              ".mfe file (records -> lines: the GC float is an opaque token, readability of the records is a hypothesis); "
+              "replaced by 'any assignment satisfying the arrays' (ArraysGood); hypothesis MfeNamesDistinct (F13). Text hops: the .pil text is read back by "
+              "the model of the PIL reader (PepperProps/ParsePil.lean: end_to_end_from_text), and PepperProps/C06Text.lean states the result with finishText on "
+              "the RENDERED .mfe text, the readability of the records being derived from the compile (end_to_end_text; name characters of the sources are "
+              "decidable hypotheses); what stays opaque is the GC-content float token of each record (any token float() accepts); "
               "NUPACK (DNAfold) is absent, so .mfe files are written with findmfe=False")
 
 
